@@ -15,11 +15,11 @@ CONSTANTS
   MaxMsgs2 = 0
   MaxOps = 30
   MaxTampers = 0
-  MaxBudgetOps = 3
-  MaxDisc = 0
+  MaxBudgetOps = 2
+  MaxDisc = 1
   CutReads = FALSE
   CutHandshake = TRUE
-  EmitEvery = 1
+  EmitEvery = 2
 CONSTRAINT Bound
 VIEW View
 INVARIANT ExactDelivery
